@@ -2234,6 +2234,128 @@ Proof.
       * f_equal. unfold pair_grad2. cbn [map dot_list]. rewrite Rplus_0_r. reflexivity.
 Qed.
 
+(* ---- distanceInv ---- *)
+Lemma zpow_pred x n : x <> 0 -> (n <= 0)%Z -> zpow x (n - 1) = zpow x n / x.
+Proof.
+  intros Hx Hn. destruct n as [|p|p]; [|lia|].
+  - change (0 - 1)%Z with (Z.neg 1). cbn [zpow]. change (Pos.to_nat 1) with 1%nat. cbn [pow]. field. exact Hx.
+  - replace (Z.neg p - 1)%Z with (Z.neg (p + 1)) by lia. cbn [zpow].
+    replace (Pos.to_nat (p + 1)) with (Datatypes.S (Pos.to_nat p)) by lia. cbn [pow].
+    assert (x ^ Pos.to_nat p <> 0) by (apply pow_nonzero; exact Hx). field. split; assumption.
+Qed.
+
+Definition dinvf (e : nat) (p q : V3) : R := ipow Rops (v3norm2 Rops (v3sub Rops q p)) (- Z.of_nat e).
+Definition dinvg (e : nat) (p q : V3) : V3 :=
+  v3scale Rops (-1 * IZR (Z.of_nat e) * (dinvf e p q / v3norm2 Rops (v3sub Rops q p)) * 2) (v3sub Rops q p).
+
+Lemma pair_correct_dinv e (p q : V3) : (1 <= e)%nat -> v3norm2 Rops (v3sub Rops q p) <> 0 ->
+  pair_correct (dinvf e) (dinvg e) p q.
+Proof.
+  intros He Hne dp dq. unfold dinvf, dinvg.
+  set (d := v3sub Rops q p) in *. set (e' := v3sub Rops dq dp).
+  set (N := fun t => v3norm2 Rops (v3add Rops d (v3scale Rops t e'))).
+  assert (HN : is_derive N 0 (v3dot Rops e' d + v3dot Rops d e')).
+  { unfold N, v3norm2. pose proof (derive_dot (fun t => v3add Rops d (v3scale Rops t e')) (fun t => v3add Rops d (v3scale Rops t e')) 0 e' e'
+                                              (vderive_line d e' 0) (vderive_line d e' 0)) as P. cbv beta in P. rewrite !line_zero in P. exact P. }
+  assert (N0 : N 0 = v3norm2 Rops d) by (unfold N; rewrite line_zero; reflexivity).
+  apply (is_derive_ext_loc (fun t => zpow (N t) (- Z.of_nat e))).
+  - assert (Hloc : locally 0 (fun t => N t <> 0)) by (apply (locally_nonzero N 0 _ HN); rewrite N0; exact Hne).
+    generalize Hloc. apply filter_imp. intros t Ht. rewrite (line_sub p q dp dq t). fold d e'. fold (N t).
+    symmetry. apply ipow_zpow. right. exact Ht.
+  - evar_last.
+    + apply (is_derive_comp (fun y => zpow y (- Z.of_nat e)) N); [|exact HN].
+      unfold N. cbv beta. rewrite line_zero. apply zpow_derive. right. exact Hne.
+    + lazymatch goal with |- context [scal ?a ?b] => change (scal a b) with (Rmult a b) end.
+      unfold dinvf. fold d. rewrite (ipow_zpow (v3norm2 Rops d) (- Z.of_nat e)) by (right; exact Hne).
+      rewrite (zpow_pred _ (- Z.of_nat e) Hne) by lia.
+      rewrite v3dot_scale_l, opp_IZR. rewrite (v3dot_get e' d), (v3dot_get d e'). field. exact Hne.
+Qed.
+
+Lemma pair_grad1_ext (f g : V3 -> V3 -> V3) (l1 l2 : list V3) : (forall p q, f p q = g p q) -> pair_grad1 Rops f l1 l2 = pair_grad1 Rops g l1 l2.
+Proof. intros H. unfold pair_grad1. apply map_ext. intros p. f_equal. apply map_ext. intros q. apply H. Qed.
+Lemma pair_grad2_ext (f g : V3 -> V3 -> V3) (l1 l2 : list V3) : (forall p q, f p q = g p q) -> pair_grad2 Rops f l1 l2 = pair_grad2 Rops g l1 l2.
+Proof. intros H. unfold pair_grad2. apply map_ext. intros q. f_equal. apply map_ext. intros p. apply H. Qed.
+
+Lemma pair_sum_pos (f : V3 -> V3 -> R) (l1 l2 : list V3) : l1 <> [] -> l2 <> [] ->
+  (forall p q, In p l1 -> In q l2 -> 0 < f p q) -> 0 < pair_sum Rops f l1 l2.
+Proof.
+  intros H1 H2 Hp. unfold pair_sum.
+  assert (T : forall (g : V3 -> R) (l : list V3), l <> [] -> (forall x, In x l -> 0 < g x) -> 0 < tsum Rops (map g l)).
+  { intros g l. induction l as [|a l IH]; intros Hl Hg; [contradiction|]. cbn [map]. rewrite tsum_cons.
+    destruct l as [|b l']; [cbn [map]; rewrite tsum_nil; pose proof (Hg a (or_introl eq_refl)); lra|].
+    pose proof (Hg a (or_introl eq_refl)). assert (0 < tsum Rops (map g (b :: l'))) by (apply IH; [discriminate|intros x Hx; apply Hg; right; exact Hx]). lra. }
+  apply (T (fun p1 => tsum Rops (map (fun p2 => f p1 p2) l2)) l1 H1). intros p Hin.
+  apply (T (fun p2 => f p p2) l2 H2). intros q Hq. apply Hp; assumption.
+Qed.
+
+Lemma dir_correct_distance_inv pbc cell e (gs : list GD) : length gs = 2%nat -> plain pbc cell -> (1 <= e)%nat ->
+  gd_pos (gnth gs 0) <> [] -> gd_pos (gnth gs 1) <> [] ->
+  (forall p q, In p (gd_pos (gnth gs 0)) -> In q (gd_pos (gnth gs 1)) -> v3norm2 Rops (v3sub Rops q p) <> 0) ->
+  dir_correct (k_distance_inv Rops pbc cell e) gs.
+Proof.
+  intros Hl Hpl He Hn1 Hn2 Hok.
+  assert (Egs : gs = [gnth gs 0; gnth gs 1]) by (destruct gs as [|g0 [|g1 [|g2 r]]]; cbn [length] in Hl; try lia; reflexivity).
+  set (l1 := gd_pos (gnth gs 0)) in *. set (l2 := gd_pos (gnth gs 1)) in *.
+  (* the model's pair functions are dinvf / dinvg *)
+  assert (Ef : forall p q, ipow Rops (v3norm2 Rops (pdist Rops pbc cell p q)) (- Z.of_nat e) = dinvf e p q)
+    by (intros p q; rewrite pdist_plain by exact Hpl; reflexivity).
+  assert (Eg : forall p q, v3scale Rops (mone Rops * ofnat Rops e * (ipow Rops (v3norm2 Rops (pdist Rops pbc cell p q)) (- Z.of_nat e) / v3norm2 Rops (pdist Rops pbc cell p q)) * tw Rops) (pdist Rops pbc cell p q) = dinvg e p q).
+  { intros p q. rewrite !pdist_plain by exact Hpl. unfold dinvg, dinvf, mone, one, ofnat, tw. cbn [nneg n1 nmul ndiv nofZ Rops].
+    change (IZR (Z.of_nat 2)) with 2. f_equal; try ring. }
+  assert (Eps : forall la lb, pair_sum Rops (fun p1 p2 => ipow Rops (v3norm2 Rops (pdist Rops pbc cell p1 p2)) (- Z.of_nat e)) la lb = pair_sum Rops (dinvf e) la lb).
+  { intros la lb. unfold pair_sum. apply tsum_ext. intros p _. apply tsum_ext. intros q _. apply Ef. }
+  split.
+  - unfold k_distance_inv. cbv zeta. cbn [snd]. apply (shape_2 (gnth gs 0) (gnth gs 1)); [exact Egs| |];
+      unfold pair_grad1, pair_grad2, gd_pos; rewrite !map_length; reflexivity.
+  - intros Ds Hs. pose proof (shape_ok_nth Ds gs 0 Hs ltac:(lia)) as H0. pose proof (shape_ok_nth Ds gs 1 Hs ltac:(lia)) as H1.
+    unfold k_distance_inv. cbv zeta. cbn [fst snd]. fold l1 l2. rewrite dot_lists_2, !dot_list_scale.
+    set (Np := ofnat Rops (length l1 * length l2)). set (ex := ofnat Rops (2 * e)).
+    assert (HNp : 0 < Np).
+    { unfold Np, ofnat. cbn [nofZ Rops]. apply IZR_lt. destruct l1, l2; try contradiction. cbn [length]. lia. }
+    assert (Hex : 0 < ex) by (unfold ex, ofnat; cbn [nofZ Rops]; apply IZR_lt; lia).
+    set (Sf := fun t => pair_sum Rops (dinvf e) (move_pos l1 t (nth 0 Ds [])) (move_pos l2 t (nth 1 Ds []))).
+    assert (HS : is_derive Sf 0 (dot_list (pair_grad1 Rops (fun p q => vneg Rops (dinvg e p q)) l1 l2) (nth 0 Ds [])
+                                + dot_list (pair_grad2 Rops (dinvg e) l1 l2) (nth 1 Ds []))).
+    { apply pair_dir; [|unfold l1, gd_pos; rewrite map_length; exact H0|unfold l2, gd_pos; rewrite map_length; exact H1].
+      intros p q Hp Hq. apply pair_correct_dinv; [exact He|apply Hok; assumption]. }
+    assert (S0 : Sf 0 = pair_sum Rops (dinvf e) l1 l2) by (unfold Sf; rewrite !move_pos_zero; reflexivity).
+    assert (Spos : 0 < pair_sum Rops (dinvf e) l1 l2).
+    { apply pair_sum_pos; [exact Hn1|exact Hn2|]. intros p q Hp Hq. unfold dinvf.
+      rewrite ipow_zpow by (right; apply Hok; assumption).
+      destruct e as [|e']; [lia|]. cbn [Z.of_nat Z.opp zpow]. apply Rinv_0_lt_compat. apply pow_lt. apply norm2_pos. apply Hok; assumption. }
+    apply (is_derive_ext (fun t => Rpower (Sf t * (1 / Np)) (-1 / ex))).
+    + intros t. unfold Sf. rewrite !gnth_move, !gd_pos_move. fold l1 l2.
+      rewrite (move_pos_length l1), (move_pos_length l2). fold Np. unfold mone, one. cbn [npow nmul ndiv nneg n1 Rops].
+      rewrite Eps. replace (- (1) / ex) with (-1 / ex) by (unfold Rdiv; ring). reflexivity.
+    + (* gradients of the model in terms of dinvg *)
+      match goal with |- context [pair_grad1 Rops ?f l1 l2] =>
+        rewrite (pair_grad1_ext f (fun p q => vneg Rops (dinvg e p q)) l1 l2) by (intros p q; cbv beta; rewrite <- Eg; reflexivity) end.
+      match goal with |- context [pair_grad2 Rops ?f l1 l2] =>
+        rewrite (pair_grad2_ext f (dinvg e) l1 l2) by (intros p q; cbv beta; rewrite <- Eg; reflexivity) end.
+      set (dS := dot_list (pair_grad1 Rops (fun p q => vneg Rops (dinvg e p q)) l1 l2) (nth 0 Ds [])
+                 + dot_list (pair_grad2 Rops (dinvg e) l1 l2) (nth 1 Ds [])) in *.
+      set (Sb := pair_sum Rops (dinvf e) l1 l2 * (1 / Np)).
+      assert (Sbpos : 0 < Sb) by (unfold Sb; apply Rmult_lt_0_compat; [exact Spos|apply Rdiv_lt_0_compat; lra]).
+      evar_last.
+      * apply (is_derive_comp (fun y => Rpower y (-1 / ex)) (fun t => Sf t * (1 / Np))).
+        -- unfold Sf. cbv beta. rewrite (move_pos_zero l1 (nth 0 Ds [])), (move_pos_zero l2 (nth 1 Ds [])). fold Sb. unfold Rpower. auto_derive; [exact Sbpos|reflexivity].
+        -- apply (is_derive_ext (fun t => (1 / Np) * Sf t)); [intros t; apply Rmult_comm|]. apply is_derive_scal. exact HS.
+      * lazymatch goal with |- context [scal ?a ?b] => change (scal a b) with (Rmult a b) end.
+        fold dS. fold Sb.
+        (* x0^(2e+1) = x0 / Sb *)
+        set (x0 := Rpower Sb (-1 / ex)).
+        assert (Hx0 : 0 < x0) by (unfold x0, Rpower; apply exp_pos).
+        assert (Epow : ipow Rops x0 (Z.of_nat (2 * e + 1)) = x0 / Sb).
+        { rewrite ipow_nat. replace (2 * e + 1)%nat with (Datatypes.S (2 * e)) by lia. cbn [pow].
+          rewrite <- (Rpower_pow (2 * e) x0 Hx0). unfold x0. rewrite Rpower_mult.
+          replace (-1 / ex * INR (2 * e)) with (Ropp 1).
+          - rewrite Rpower_Ropp, (Rpower_1 Sb Sbpos). unfold Rdiv. ring.
+          - unfold ex, ofnat. cbn [nofZ Rops]. rewrite <- INR_IZR_INZ. field. apply not_0_INR. lia. }
+        unfold mone, one. cbn [nneg n1 nmul ndiv npow Rops].
+        rewrite Eps. replace (- (1) / ex) with (-1 / ex) by (unfold Rdiv; ring). fold Sb. fold x0.
+        rewrite Epow. unfold dS. change (exp (-1 / ex * ln Sb)) with x0. field. repeat split; lra.
+Qed.
+
 (* ------------------------------------------------------------------ more components as functions of the atomic coordinates *)
 Lemma grp_ok_3 (s : SYS) g1 g2 g3 : grp_ok s g1 -> grp_ok s g2 -> grp_ok s g3 ->
   List.Forall (wf_group s) [g1; g2; g3] /\ gds_wf (map (gdata_of Rops s) [g1; g2; g3]) 3 /\ List.Forall fit_on [g1; g2; g3].
@@ -2363,6 +2485,21 @@ Proof.
   apply dir_correct_dipole_angle; [exact HG|exact Hpl|reflexivity| | |]; cbn [map]; unfold gnth; cbn [nth]; assumption.
 Qed.
 
+Definition inv_ok (l1 l2 : list V3) : Prop :=
+  l1 <> [] /\ l2 <> [] /\ forall p q, In p l1 -> In q l2 -> v3norm2 Rops (v3sub Rops q p) <> 0.
+
+Lemma cvc_grad_correct_distanceInv cell pbc co e ex g1 g2 (s : SYS) :
+  grp_ok0 s g1 -> grp_ok0 s g2 -> plain pbc cell -> (1 <= ex)%nat ->
+  inv_ok (gd_pos (gdata_of Rops s g1)) (gd_pos (gdata_of Rops s g2)) ->
+  cvc_grad_correct cell (mkCvc co e (KDistanceInv pbc ex) [g1; g2]) s.
+Proof.
+  intros (W1 & F1) (W2 & F2) Hpl He (N1 & N2 & Hok).
+  apply group_layer; cbn [c_groups c_kind keval].
+  - repeat constructor; assumption.
+  - apply dir_correct_distance_inv; try assumption; reflexivity.
+  - apply fit_ok_on. repeat constructor; assumption.
+Qed.
+
 (* ------------------------------------------------------------------ closed form: guards instead of abstract hypotheses *)
 Definition com_of (s : SYS) (g : GRP) : V3 := gd_com Rops (gdata_of Rops s g).
 
@@ -2403,6 +2540,9 @@ Definition kind_guard (cell : option V3) (c : cvc) (s : SYS) : Prop :=
     self_ok (fun p q => l2of r0 (v3sub Rops q p) <> 0 /\ l2of r0 (v3sub Rops q p) <> 1) (gd_pos (gdata_of Rops s g1))
   | KInertia, [GAtoms ids (Some z) None false] => z = vzero Rops /\ ids_ok s ids /\ ids <> []
   | KInertiaZ ax, [GAtoms ids (Some z) None false] => z = vzero Rops /\ ids_ok s ids /\ ids <> []
+  | KDistanceInv pbc ex, [g1; g2] =>
+    grp_ok0 s g1 /\ grp_ok0 s g2 /\ plain pbc cell /\ (1 <= ex)%nat /\
+    inv_ok (gd_pos (gdata_of Rops s g1)) (gd_pos (gdata_of Rops s g2))           (* no two atoms of the two groups coincide *)
   | KGyration, [GAtoms ids (Some z) None false] =>
     z = vzero Rops /\ ids_ok s ids /\ ids <> [] /\ cvc_value Rops PI cell c s <> 0
   | _, _ => False
@@ -2425,6 +2565,8 @@ Proof.
     apply cvc_grad_correct_distanceXY; assumption.
   - destruct groups as [|g1 [|g2 [|g3 [|g4 r]]]]; try contradiction. destruct Hk as (H0 & H1 & H2 & Hp & Hn & Hv).
     apply cvc_grad_correct_distanceXY2; assumption.
+  - destruct groups as [|g1 [|g2 [|g3 r]]]; try contradiction. destruct Hk as (H1 & H2 & Hp & He & Hok).
+    apply cvc_grad_correct_distanceInv; assumption.
   - destruct groups as [|[p|ids c fit fg] [|g2 r]]; try contradiction;
       (destruct c as [z|]; try contradiction; destruct fit; try contradiction; destruct fg; try contradiction).
     destruct Hk as (-> & Hi & Hne & Hv). apply cvc_grad_correct_gyration; assumption.
